@@ -70,6 +70,7 @@ type c26Prog struct {
 	val     []string // first entry loop (no engine call)
 	main    []string // entry loop that reaches the engine
 	multi   bool
+	mayStop bool     // the entry loop can return success before the last entry
 	unknown []string // why
 	ended   string   // "", "body", "return"
 }
@@ -459,6 +460,18 @@ func (cx *c26Ctx) scan(e *c26Env, stmts []ast.Stmt, p *c26Prog) {
 				lp := &c26Prog{}
 				cx.scan(sub, v.Body.List, lp)
 				p.unknown = append(p.unknown, lp.unknown...)
+				// a stream handler may end the loop early with a success (MaxResults reached)
+				for _, st := range v.Body.List {
+					ast.Inspect(st, func(n ast.Node) bool {
+						if _, ok := n.(*ast.FuncLit); ok {
+							return false
+						}
+						if r, ok := n.(*ast.ReturnStmt); ok && len(r.Results) == 1 && f.Str(r.Results[0]) == "nil" {
+							p.mayStop = true
+						}
+						return true
+					})
+				}
 				if lp.ended == "body" {
 					p.main = append(p.main, lp.steps...)
 					p.ended = "body"
@@ -1039,6 +1052,9 @@ done:
 	p := &c26Prog{}
 	env.top = true
 	cx.scan(env, rest, p)
+	if p.mayStop {
+		flags['t'] = true
+	}
 	if p.multi {
 		flags['m'] = true
 		h.val, h.main = p.val, p.main
